@@ -28,6 +28,8 @@ class ScenarioConnectionCache {
     
     virtual std::optional<std::shared_ptr<ConnectionSet>> get(boost::uuids::uuid uuid) const = 0;
     virtual void set(boost::uuids::uuid uuid, std::shared_ptr<ConnectionSet> cache) = 0;
+    // Forget every cached connection set (to be called when the data they were built from is reloaded)
+    virtual void clear() = 0;
 };
 
 /**
@@ -45,6 +47,7 @@ class ScenarioConnectionCacheOne : public ScenarioConnectionCache {
 
     virtual std::optional<std::shared_ptr<ConnectionSet>> get(boost::uuids::uuid uuid) const;
     virtual void set(boost::uuids::uuid uuid, std::shared_ptr<ConnectionSet> cache);
+    virtual void clear();
 
   private:
   mutable std::shared_mutex mutex; //Reader/Writer locking
@@ -68,6 +71,7 @@ class ScenarioConnectionCacheAll : public ScenarioConnectionCache {
 
     virtual std::optional<std::shared_ptr<ConnectionSet>> get(boost::uuids::uuid uuid) const;
     virtual void set(boost::uuids::uuid uuid, std::shared_ptr<ConnectionSet> cache);
+    virtual void clear();
 
   private:
     mutable std::shared_mutex mutex; //Reader/Writer locking
